@@ -152,7 +152,7 @@ theorem act0_eq2 : ((0 : Nat) == 2) = false := rfl
 
 macro "lk_simp" : tactic =>
   `(tactic| simp only [*, ↓reduceIte, Bool.false_eq_true, act1_eq1, act1_eq2, act2_eq1, act2_eq2, act0_eq1, act0_eq2,
-      decide_eq_true_eq, LP.σ_lastLoc, LP.σ_refLoc, LP.σ_tagUseSite, LP.σ_eofErr, LP.σ_replay])
+      decide_eq_true_eq, LP.σ_lastLoc, LP.σ_refLoc, LP.σ_atAlias, LP.σ_tagUseSite, LP.σ_eofErr, LP.σ_replay])
 
 macro "lk_loop" : tactic =>
   `(tactic| repeat' (first | lk_leaf | lk_step | lk_simp | (split <;> try lk_fwd) | lk_tail))
